@@ -498,6 +498,16 @@ func runC17(p *core.Prog, r *core.Report) {
 					}
 				case *ssa.BinOp:
 					if x.Op == token.ADD {
+						// "/" + strings.TrimLeft(p, "/") and "/" + strings.TrimPrefix(p, "/"): only leading slashes are
+						// dropped and one is put back — path.Clean collapses a leading run of slashes to one anyway
+						if k, isK := x.X.(*ssa.Const); isK && k.Value != nil && k.Value.Kind() == constant.String && constant.StringVal(k.Value) == "/" {
+							if c, isC := sx.Unspill(x.Y).(*ssa.Call); isC && (sx.CalleeName(c) == "strings.TrimLeft" || sx.CalleeName(c) == "strings.TrimPrefix") && len(c.Call.Args) == 2 {
+								if k2, isK2 := c.Call.Args[1].(*ssa.Const); isK2 && k2.Value != nil && k2.Value.Kind() == constant.String && constant.StringVal(k2.Value) == "/" {
+									walk(c.Call.Args[0], d+1)
+									return
+								}
+							}
+						}
 						walk(x.X, d+1)
 						walk(x.Y, d+1)
 					}
